@@ -199,6 +199,192 @@ def encRows (chn : Nat) (opt : Nat → CellOpt) : (rows : Nat) → List Cell →
 def pack (chn : Nat) (p : Pat) (opt : Nat → CellOpt) (i : Nat) : Bytes :=
   encRows chn opt p.rows p.cells i (List.replicate 64 {})
 
+/-! ## IT 2.14 / 2.15 sample compression (src/loaders/itsex.c)
+
+Bit streams are lists of bits, least significant bit of each byte first (`read_bits`). -/
+namespace Sex
+
+def byteBits (b : UInt8) : List Bool := (List.range 8).map fun k => decide (b.toNat / 2 ^ k % 2 = 1)
+def toBits (bs : Bytes) : List Bool := bs.flatMap byteBits
+
+def bitsVal : List Bool → Nat
+  | [] => 0
+  | b :: r => (if b then 1 else 0) + 2 * bitsVal r
+
+/-- `n` bits of `v`, least significant first -/
+def valBits (n v : Nat) : List Bool := (List.range n).map fun k => decide (v / 2 ^ k % 2 = 1)
+
+/-- `read_bits(in, n)`; `none` = error (invalid width, or the block's bits run out) -/
+def readBits (n : Nat) (s : List Bool) : Option (Nat × List Bool) :=
+  if n = 0 ∨ n ≥ 32 then none
+  else
+    let t := s.take n
+    if t.length < n then none else some (bitsVal t, s.drop n)
+
+/-- pack bits into `n` bytes, zero padded -/
+def packBits : Nat → List Bool → Bytes
+  | 0, _ => []
+  | n + 1, bs => u8 (bitsVal (bs.take 8)) :: packBits n (bs.drop 8)
+
+/-- the two flavours: 8-bit samples (widths 1..9) and 16-bit samples (widths 1..17) -/
+structure Cfg where
+  W : Nat          -- widest code: 9 / 17
+  B : Nat          -- sample bits: 8 / 16
+  esc : Nat        -- bits of the width field after the escape code of widths < 7: 3 / 4
+  blk : Nat        -- samples per block: 0x8000 / 0x4000
+  deriving Repr
+
+def cfg (is16 : Bool) : Cfg :=
+  if is16 then { W := 17, B := 16, esc := 4, blk := 0x4000 } else { W := 9, B := 8, esc := 3, blk := 0x8000 }
+
+def Cfg.M (c : Cfg) : Nat := 2 ^ c.B
+/-- upper / lower bound of the width-change codes of a width `7 ≤ left < W`: `(j, i]` -/
+def Cfg.hi (c : Cfg) (left : Nat) : Nat := (2 ^ c.B - 1) / 2 ^ (c.W - left) + c.B / 2
+def Cfg.lo (c : Cfg) (left : Nat) : Nat := (c.hi left + 2 ^ 16 - c.B) % 2 ^ 16
+
+structure St where
+  left : Nat
+  temp : Nat := 0
+  temp2 : Nat := 0
+  deriving Repr
+
+/-- new width after a change code `b` (1-based, skipping the current width) -/
+def newWidth (left b : Nat) : Nat := if b % 256 < left then b % 256 else (b + 1) % 256
+
+/-- sign-extend a `left`-bit code to a sample value modulo `2^B` -/
+def signExt (c : Cfg) (left v : Nat) : Nat :=
+  if left < c.B then (if v ≥ 2 ^ (left - 1) then v + c.M - 2 ^ left else v) % c.M else v % c.M
+
+inductive Step where
+  | fail
+  | width (left : Nat) (s : List Bool)
+  | out (x : Nat) (st : St) (s : List Bool)
+
+/-- one iteration of the `do … while (pos < d)` loop -/
+def step (c : Cfg) (it215 : Bool) (st : St) (s : List Bool) : Step :=
+  match readBits st.left s with
+  | none => .fail
+  | some (v, s1) =>
+    let unpack : Step :=
+      let t := (signExt c st.left v + st.temp) % c.M
+      let t2 := (st.temp2 + t) % c.M
+      .out (if it215 then t2 else t) { st with temp := t, temp2 := t2 } s1
+    if st.left < 7 then
+      if v = 2 ^ (st.left - 1) then
+        match readBits c.esc s1 with
+        | none => .fail
+        | some (w, s2) => .width (newWidth st.left (w + 1)) s2
+      else unpack
+    else if st.left < c.W then
+      if v ≤ c.lo st.left ∨ v > c.hi st.left % 2 ^ 16 then unpack
+      else .width (newWidth st.left (v - c.lo st.left)) s1
+    else if st.left ≥ c.W + 1 then .out 0 st s1           -- `skip_byte`: the (zeroed) output is left untouched
+    else if v ≥ c.M then .width ((v + 1) % 256) s1
+    else unpack
+
+/-- `n` samples from the bits of one block -/
+def decBlock (c : Cfg) (it215 : Bool) : (fuel : Nat) → (n : Nat) → St → List Bool → Option (List Nat)
+  | 0, n, _, _ => if n = 0 then some [] else none
+  | _ + 1, 0, _, _ => some []
+  | f + 1, n + 1, st, s =>
+    match step c it215 st s with
+    | .fail => none
+    | .width l s' => decBlock c it215 f (n + 1) { st with left := l } s'
+    | .out x st' s' => (decBlock c it215 f n st' s').map (x :: ·)
+
+/-- `itsex_decompress8/16`: `len` samples of one channel from the stream; returns the samples and the rest of the stream -/
+def decChan (c : Cfg) (it215 : Bool) : (fuel : Nat) → (len : Nat) → Bytes → Option (List Nat × Bytes)
+  | 0, _, _ => none
+  | f + 1, len, bs =>
+    if len = 0 then some ([], bs)
+    else
+      let h := bs.take 2
+      if h.length < 2 then none
+      else
+        let bl := rd16le h
+        let body := (bs.drop 2).take bl
+        if body.length < bl then none
+        else
+          let d := if c.blk > len then len else c.blk
+          match decBlock c it215 (8 * bl + 8 + d) d { left := c.W } (toBits body) with
+          | none => none
+          | some xs => (decChan c it215 f (len - d) (bs.drop (2 + bl))).map fun (ys, r) => (xs ++ ys, r)
+
+/-! ### the writer's compressor -/
+
+/-- can the sample delta `d` (mod `2^B`) be sent as a `w`-bit code without colliding with a width-change code -/
+def fits (c : Cfg) (w d : Nat) : Bool :=
+  if w = c.W then true
+  else if w = 0 ∨ w > c.W then false
+  else
+    let code := d % 2 ^ w
+    let inRange := if w < c.B then decide (d < 2 ^ (w - 1) ∨ d + 2 ^ (w - 1) ≥ c.M) else true
+    inRange && (if w < 7 then decide (code ≠ 2 ^ (w - 1)) else decide (code ≤ c.lo w ∨ code > c.hi w))
+
+/-- code sequence that changes the width from `left` to `nw` (`nw ≠ left`, `1 ≤ nw ≤ W`) -/
+def widthChange (c : Cfg) (left nw : Nat) : List Bool :=
+  let k := if nw < left then nw else nw - 1
+  if left < 7 then valBits left (2 ^ (left - 1)) ++ valBits c.esc (k - 1)
+  else if left < c.W then valBits left (c.lo left + k)
+  else valBits c.W (c.M + nw - 1)
+
+/-- deltas of one block: IT 2.14 single, IT 2.15 double integration, both restarting from 0 -/
+def deltas (c : Cfg) (it215 : Bool) : List Nat → (prev prevT : Nat) → List Nat
+  | [], _, _ => []
+  | x :: r, prev, prevT =>
+    let t := (x + c.M - prev % c.M) % c.M
+    (if it215 then (t + c.M - prevT % c.M) % c.M else t) :: deltas c it215 r x t
+
+/-- bits of one block; `wsel i` = width the writer would like for sample `i` (0 = no wish) -/
+def encDeltas (c : Cfg) (wsel : Nat → Nat) : List Nat → (i left : Nat) → List Bool
+  | [], _, _ => []
+  | d :: r, i, left =>
+    let want := wsel i
+    let target := if want ≠ 0 ∧ want ≤ c.W ∧ fits c want d then want else if fits c left d then left else c.W
+    (if target ≠ left then widthChange c left target else []) ++ valBits target (d % 2 ^ target) ++
+      encDeltas c wsel r (i + 1) target
+
+def encBlock (c : Cfg) (it215 : Bool) (wsel : Nat → Nat) (xs : List Nat) (i : Nat) : Bytes :=
+  let bits := encDeltas c wsel (deltas c it215 xs 0 0) i c.W
+  let n := (bits.length + 7) / 8
+  -- a block must fit its 16-bit length word: fall back to the plain widest-code form
+  let bits := if n > 65535 then encDeltas c (fun _ => 0) (deltas c it215 xs 0 0) i c.W else bits
+  let n := (bits.length + 7) / 8
+  le16 n ++ packBits n bits
+
+def encChan (c : Cfg) (it215 : Bool) (wsel : Nat → Nat) : (fuel : Nat) → List Nat → Nat → Bytes
+  | 0, _, _ => []
+  | f + 1, xs, i =>
+    if xs.isEmpty then []
+    else encBlock c it215 wsel (xs.take c.blk) i ++ encChan c it215 wsel f (xs.drop c.blk) (i + c.blk)
+
+/-- sample values of one channel block of the in-file PCM layout -/
+def chanVals (is16 : Bool) (b : Bytes) : List Nat := if is16 then words b else b.map (·.toNat)
+def valsBytes (is16 : Bool) (v : List Nat) : Bytes := if is16 then unwords v else v.map u8
+
+/-- compress the in-file layout (`left block ++ right block`) channel by channel -/
+def compress (flg len : Nat) (it215 : Bool) (wsel : Nat → Nat) (raw : Bytes) : Bytes :=
+  let is16 := decide (flg &&& F16BIT ≠ 0)
+  let c := cfg is16
+  let n := len * chanBytes flg
+  let one (b : Bytes) (i : Nat) := encChan c it215 wsel (len / c.blk + 2) (chanVals is16 b) i
+  if flg &&& FSTEREO ≠ 0 then one (raw.take n) 0 ++ one (raw.drop n) len else one raw 0
+
+/-- `unpack_it_sample`: the decoded in-file layout -/
+def decompress (flg len : Nat) (it215 : Bool) (stream : Bytes) : Option Bytes :=
+  let is16 := decide (flg &&& F16BIT ≠ 0)
+  let c := cfg is16
+  match decChan c it215 (len / c.blk + 2) len stream with
+  | none => none
+  | some (l, rest) =>
+    if flg &&& FSTEREO ≠ 0 then
+      match decChan c it215 (len / c.blk + 2) len rest with
+      | none => none
+      | some (r, _) => some (valsBytes is16 l ++ valsBytes is16 r)
+    else some (valsBytes is16 l)
+
+end Sex
+
 /-! ## sample headers -/
 
 def FSMASK : Nat := F16BIT ||| FLOOP ||| FBIDIR ||| FSLOOP ||| FSBIDIR ||| FSTEREO
@@ -210,19 +396,22 @@ structure Opts where
   gv : UInt8 := 128
   mv : UInt8 := 48
   signed : Nat → Bool := fun _ => true      -- per sample: convert bit 0
+  comp : Nat → Nat := fun _ => 0            -- per sample: 0 = plain PCM, 1 = IT 2.14 compression, 2 = IT 2.15 (double delta)
+  wsel : Nat → Nat → Nat := fun _ _ => 0    -- per sample and sample position: code width the compressor should try (0 = none)
   c5spd : Nat → Nat := fun _ => 8363
   nullEmpty : Bool := false
   cell : Nat → CellOpt := fun _ => {}
   chpan : Nat → UInt8 := fun _ => 32
   chvol : Nat → UInt8 := fun _ => 64
 
-def encSmpHdr (x : Ins) (m : Smp) (signed : Bool) (c5 ptr : Nat) : Bytes :=
+def encSmpHdr (x : Ins) (m : Smp) (signed : Bool) (comp : Nat) (c5 ptr : Nat) : Bytes :=
   let sub : Sub := x.subs.headD { sid := 0, vol := 0, pan := 0, xpo := 0, fin := 0 }
   let fl := (if m.len ≠ 0 then 1 else 0) + (if m.flg &&& F16BIT ≠ 0 then 2 else 0) + (if m.flg &&& FSTEREO ≠ 0 then 4 else 0) +
+            (if comp ≠ 0 ∧ m.len > 1 then 8 else 0) +
             (if m.flg &&& FLOOP ≠ 0 then 0x10 else 0) + (if m.flg &&& FSLOOP ≠ 0 then 0x20 else 0) +
             (if m.flg &&& FBIDIR ≠ 0 then 0x40 else 0) + (if m.flg &&& FSBIDIR ≠ 0 then 0x80 else 0)
   str "IMPS" ++ List.replicate 12 0 ++ [0, 64, u8 fl, u8 sub.vol] ++ padTo 25 x.name ++ [0] ++
-  [(if signed then 1 else 0), u8 (0x80 + sub.pan.toNat / 4)] ++ le32 m.len ++ le32 m.lps ++ le32 m.lpe ++ le32 c5 ++
+  [u8 ((if signed then 1 else 0) + (if comp = 2 ∧ m.len > 1 then 4 else 0)), u8 (0x80 + sub.pan.toNat / 4)] ++ le32 m.len ++ le32 m.lps ++ le32 m.lpe ++ le32 c5 ++
   le32 m.sus ++ le32 m.sue ++ le32 ptr ++ [0, 0, 0, 0]
 
 /-- `fix_name` + `libxmp_copy_adjust(…, 25)` + `libxmp_adjust_string` -/
@@ -277,17 +466,23 @@ def loadSmp (file : Bytes) (i : Nat) (b : Bytes) : Option (Ins × Smp) :=
     let m0 : Smp := { name := [], len := h.len, lps := h.lps, lpe := h.lpe, flg := flg, sus := sus, sue := sue, pcm := [] }
     if h.flags % 2 = 1 ∧ h.len > 1 then
       if h.len > 0x10000000 then none
-      else if h.flags / 8 % 2 = 1 then none            -- IT2.14/2.15 compressed: not modelled
       else if h.cvt = 0xff then none                   -- ADPCM: not modelled
       else
         let flg1 := if h.lpe > h.len ∨ h.lps ≥ h.lpe then flg &&& (0xffff - FLOOP) else flg
         let n := h.len * frameBytes flg
-        if h.ptr + n > file.length then none           -- truncated sample: not modelled
-        else
+        let fin (raw : Bytes) : Option (Ins × Smp) :=
           let (lps, lpe, flg2) := loopSanity h.len h.lps h.lpe flg1
           let flg3 := if flg2 &&& FSBIDIR ≠ 0 ∧ flg2 &&& FSLOOP = 0 then flg2 &&& (0xffff - FSBIDIR) else flg2
           some (ins, susFix { m0 with lps := lps, lpe := lpe, flg := flg3,
-                                      pcm := S3m.loadPcm (h.cvt % 2 = 0) flg h.len ((file.drop h.ptr).take n) })
+                                      pcm := S3m.loadPcm (h.cvt % 2 = 0) flg h.len raw })
+        if h.flags / 8 % 2 = 1 then
+          -- compressed: lower bound test of the loader (resizing short samples is not modelled)
+          if h.ptr ≥ file.length ∨ file.length - h.ptr < h.len * (if flg &&& FSTEREO ≠ 0 then 2 else 1) / 8 then none
+          else match Sex.decompress flg h.len (h.cvt / 4 % 2 = 1) (file.drop h.ptr) with
+            | none => none                             -- stream error: the loader keeps a partial sample, not modelled
+            | some raw => fin raw
+        else if h.ptr + n > file.length then none           -- truncated sample: not modelled
+        else fin ((file.drop h.ptr).take n)
     else some (ins, susFix m0)
 
 /-! ## file level -/
@@ -320,10 +515,12 @@ def write (s : Module) (o : Opts) : Bytes :=
       le16 d.length ++ le16 p.rows ++ [0, 0, 0, 0] ++ d
   let patOffs := (offsets patBase patBlobs).zip patBlobs |>.map fun (off, b) => if b.isEmpty then 0 else off
   let smpBase := patBase + (patBlobs.map (·.length)).sum
-  let smpBlobs : List Bytes := s.smps.zipIdx.map fun (m, i) => S3m.storePcm (!(o.signed i)) m.flg m.len m.pcm
+  let smpBlobs : List Bytes := s.smps.zipIdx.map fun (m, i) =>
+    let raw := S3m.storePcm (!(o.signed i)) m.flg m.len m.pcm
+    if o.comp i ≠ 0 ∧ m.len > 1 then Sex.compress m.flg m.len (o.comp i = 2) (o.wsel i) raw else raw
   let smpOffs := offsets smpBase smpBlobs
   let hdrs : Bytes := (((s.ins.zip s.smps).zip smpOffs).zipIdx).flatMap fun (((x, m), off), i) =>
-    encSmpHdr x m (o.signed i) (o.c5spd i) off
+    encSmpHdr x m (o.signed i) (o.comp i) (o.c5spd i) off
   hdr ++ s.orders ++ (List.range nsmp).flatMap (fun i => le32 (hdrBase + 80 * i)) ++ patOffs.flatMap le32 ++
   hdrs ++ patBlobs.flatten ++ smpBlobs.flatten
 
